@@ -13,7 +13,7 @@ ID = "C13"
 CHECK_MODULE = "Deb822.RelationCheck"
 PROPS_FILE = "Props/C13.v"
 ANCHORS = [("lib/debian/deb822.py", ["PkgRelation"])]
-BUDGET = {"quick": 1800, "thorough": 40000}
+BUDGET = {"quick": 1600, "thorough": 24000}
 SHARD = 250
 RULE = ("45% relation structures: 1-3 conjuncts x 1-3 alternatives, every atom with a uniformly drawn subset of the "
         "four optional parts (arch qualifier, version constraint, architecture list, restriction formula), names / "
@@ -89,7 +89,7 @@ def _atom(rng, mask=None):
 
 
 def _rels(rng):
-    return [[_atom(rng) for _ in range(rng.randint(1, 3))] for _ in range(rng.randint(1, 3))]
+    return [[_atom(rng) for _ in range(rng.choice([1, 1, 2, 3]))] for _ in range(rng.choice([1, 1, 2, 2, 3]))]
 
 
 BREAKS = ["no_conj", "no_alt", "arch_empty", "restr_empty", "group_empty", "profile_upper", "profile_lt", "profile_gt",
